@@ -122,23 +122,41 @@ theorem C08_dial_first (o : Options) : dialFirst o = .mse → o.allowCH = true :
   revert a1 a2 a3 a4 a5 a6
   decide
 
-/-- the sequential meaning of `if OUTER { if INNER { cryptoHandshake = V; goto again } } …` -/
-def interpSteps : List (Bool × Bool × Bool) → Option Bool
+/-- the sequential meaning of the retry block: the first `cryptoHandshake = V; goto again`
+    all of whose dominating conjuncts hold fires (every row ends in `goto`, nothing else is
+    executed in the block: the extractor rejects any other statement) -/
+def interpRows : List (List Bool × Bool) → Option Bool
   | [] => none
-  | (outer, inner, v) :: rest => if outer && inner then some v else interpSteps rest
+  | (conj, v) :: rest => if conj.all id then some v else interpRows rest
 
 def kindOfBool (b : Bool) : Kind := if b then .mse else .plain
 
+/-- the table the unchanged tree gives, in the extractor's canonical form (ordered conjunct
+    lists; whether the source nests `if`s or writes `&&` is invisible) -/
+def expectedDialRows (o : Options) (ch : Bool) : List (List Bool × Bool) :=
+  [([o.preferCH, !o.forceCH, ch], false), ([!o.preferCH, o.allowCH, !ch], true)]
+
 /-- **Tie to the source of tor.DialClient** (regenerated on every run by
-    harness/cmd/extract/policy.go): the expressions found in the Go source are the model's
-    `dialFirst` and `dialRetry`, and the retry happens only on ErrBadHandshake. -/
+    harness/cmd/extract/policy.go): the MEANING of the conditions found in the Go source is the
+    model's `dialFirst` and `dialRetry`, and the retry happens only on ErrBadHandshake.  The
+    comparison is semantic (all 2^7 valuations), so behaviour-preserving rewrites of the
+    conditions (nesting vs `&&`, reordered conjuncts, named sub-expressions) keep it true
+    while any change of the truth table breaks it. -/
 theorem C08_gen_dial :
     Gen.dialShapeOk = true ∧
     Gen.dialRetryGuard = "errors.Is(err, protocol.ErrBadHandshake)" ∧
     ∀ (o : Options) (ch : Bool),
-      kindOfBool (Gen.dialFirstExpr o) = dialFirst o ∧
-      (interpSteps (Gen.dialRetrySteps o ch)).map kindOfBool = dialRetry o (kindOfBool ch) := by
+      kindOfBool ((Gen.dialFirstConj o).all id) = dialFirst o ∧
+      (interpRows (Gen.dialRetryRows o ch)).map kindOfBool = dialRetry o (kindOfBool ch) := by
   refine ⟨by decide, by decide, ?_⟩
+  intro ⟨a1, a2, a3, a4, a5, a6⟩ ch
+  revert a1 a2 a3 a4 a5 a6 ch
+  decide
+
+/-- the expected canonical table has that meaning too (so a regenerated table equal to it is
+    accepted by `C08_gen_dial`; the unchanged tree produces exactly these rows) -/
+example : ∀ (o : Options) (ch : Bool),
+    (interpRows (expectedDialRows o ch)).map kindOfBool = dialRetry o (kindOfBool ch) := by
   intro ⟨a1, a2, a3, a4, a5, a6⟩ ch
   revert a1 a2 a3 a4 a5 a6 ch
   decide
